@@ -243,19 +243,19 @@ func (s *SignLog) Take() []SignReq {
 
 // Node is one real consensus node with its stores.
 type Node struct {
-	ID      int // 1-based validator index (0: not a validator)
-	CS      *consensus.ConsensusState
-	BO      *blockchain.BlockOperations
-	BE      *cstate.BlockExecutor
-	Ops     BlockOps // what the consensus state and the block executor were given (BO behind the interposers)
-	BC      *blockchain.BlockChain
-	EvPool  *evidence.Pool
-	Store   cstate.Store
-	DB      kaidb.Database
-	Sign    *SignLog
-	Sched   []consensus.VerifTimeout // every ScheduleTimeout call since the last Take
-	Bus     *types.EventBus
-	TxPool  *tx_pool.TxPool
+	ID     int // 1-based validator index (0: not a validator)
+	CS     *consensus.ConsensusState
+	BO     *blockchain.BlockOperations
+	BE     *cstate.BlockExecutor
+	Ops    BlockOps // what the consensus state and the block executor were given (BO behind the interposers)
+	BC     *blockchain.BlockChain
+	EvPool *evidence.Pool
+	Store  cstate.Store
+	DB     kaidb.Database
+	Sign   *SignLog
+	Sched  []consensus.VerifTimeout // every ScheduleTimeout call since the last Take
+	Bus    *types.EventBus
+	TxPool *tx_pool.TxPool
 }
 
 // BlockOps is what both the consensus state and the block executor need from the chain.
@@ -266,13 +266,13 @@ type BlockOps interface {
 
 // Opts configures BuildNode.
 type Opts struct {
-	DB     kaidb.Database                                // nil: fresh memorydb
-	Fresh  bool                                          // save the genesis consensus state first (else load from DB)
-	Cache  *blockchain.CacheConfig                       // nil: the chain's default (recent state kept in memory)
-	WrapBO func(bo *blockchain.BlockOperations) BlockOps // optional interposer (crash injection, recording)
-	RootDir string                                       // consensus root dir (the WAL lives in <RootDir>/cs.wal/wal)
-	Priv    types.PrivValidator                          // optional wrapper around the validator key
-	WaitTxs bool                                         // the default configuration's CreateEmptyBlocksInterval > 0: round 1 is proposed on the NewRound timeout
+	DB      kaidb.Database                                // nil: fresh memorydb
+	Fresh   bool                                          // save the genesis consensus state first (else load from DB)
+	Cache   *blockchain.CacheConfig                       // nil: the chain's default (recent state kept in memory)
+	WrapBO  func(bo *blockchain.BlockOperations) BlockOps // optional interposer (crash injection, recording)
+	RootDir string                                        // consensus root dir (the WAL lives in <RootDir>/cs.wal/wal)
+	Priv    types.PrivValidator                           // optional wrapper around the validator key
+	WaitTxs bool                                          // the default configuration's CreateEmptyBlocksInterval > 0: round 1 is proposed on the NewRound timeout
 }
 
 // BuildNode constructs a node the way mainchain/backend.go wires it.
